@@ -16,7 +16,7 @@ EXPLANATION = (
     "case_sensitive=True, the simplified regex matcher anchors ^...$, regex matchers use match() and no IGNORECASE. "
     "M6: the default matcher is restored after every step module. M7: decorators for the four types in both "
     "spellings. M8: two parse matchers with the same pattern text but different custom types get separate parsers "
-    "built from their own types. S7 (shared with C02): converter errors become MatchWithError.")
+    "built from their own types. S7 (shared with C02): converter errors become MatchWithError. M9: every in-repo subclass of ParseMatcher resolves TYPE_REGISTRY to the single registry object defined on ParseMatcher, which register_type() writes and __init__ reads as default; M3 also requires that existing definitions are compared with the decorator's step text, not with a matcher-rewritten pattern.")
 NOT_DECIDED = ("what the third-party pattern languages match on concrete texts (typed fields, cardinality fields, regex "
                "groups), type-converter results")
 TECHNIQUE = "static analysis: exhaustive abstract evaluation of lookup/registration over token registries (decision tables, no-mutation effect rule), call-shape and provenance rules on the matcher glue, ownership rule for parsers"
@@ -29,6 +29,7 @@ def run(chk, ix, tier):
     rules_matching.check_fulltext(chk, ix)
     rules_matching.check_module_glue(chk, ix)
     rules_matching.check_parser_ownership(chk, ix)
+    rules_matching.check_type_registry_sharing(chk, ix)
     rules_order.check_match_protection(chk, ix)
-    for r, n in (("M1", 5), ("M2", 16), ("M3", 10), ("M4", 2), ("M5", 3), ("M6", 1), ("M7", 1), ("M8", 1)):
+    for r, n in (("M1", 5), ("M2", 16), ("M3", 10), ("M4", 2), ("M5", 3), ("M6", 1), ("M7", 1), ("M8", 1), ("M9", 3)):
         chk.require_instances(r, n)
